@@ -76,6 +76,10 @@ func getOffset(k []byte) int64 {
 func (t *TFile) trackWrite(offset int64, length int64) {
 
 	start, end := getFileRange(offset, length)
+	if length <= 0 {
+		// An empty write covers no offset: its start and end markers would share one key.
+		return
+	}
 
 	// Lock to protect radix tree, reads can continue.
 	t.lock.Lock()
